@@ -364,7 +364,7 @@ func parseLine(f []string) line {
 			return bad
 		}
 		switch f[1] {
-		case "conf", "denied", "comm", "req", "trunc", "badtype":
+		case "conf", "denied", "comm", "req", "trunc", "badtype", "pf3", "pf4":
 			return line{kind: "junk", jkind: f[1], jn: int(n)}
 		}
 	}
@@ -391,6 +391,22 @@ func junkBytes(l line, want byte) (b []byte, endsStream bool) {
 			authgrants.WriteIntentCommunication(&buf, junkIntent)
 		} else {
 			authgrants.WriteIntentRequest(&buf, junkIntent)
+		}
+		return buf.Bytes(), false
+	case "pf3", "pf4":
+		// a complete message of the expected type whose intent has a port-forwarding grant type: its
+		// grant data has no encoding (WriteTo reports that after everything else is written, ReadFrom
+		// refuses it), so the reader must give up on the connection
+		pf := junkIntent
+		pf.GrantType = authgrants.LocalPF
+		if l.jkind == "pf4" {
+			pf.GrantType = authgrants.RemotePF
+		}
+		pf.AssociatedData = authgrants.GrantData{}
+		if want == byte(authgrants.IntentRequest) {
+			authgrants.WriteIntentRequest(&buf, pf)
+		} else {
+			authgrants.WriteIntentCommunication(&buf, pf)
 		}
 		return buf.Bytes(), false
 	case "trunc":
@@ -797,7 +813,7 @@ func genPrincipal(g *GenCtx) {
 		skipOK := g.R.Chance(1, 6)
 		for i := 0; i < n; i++ {
 			if g.R.Chance(1, 25) {
-				g.Op("junk %s %d", Pick(g.R, []string{"conf", "denied", "comm", "trunc", "badtype"}), g.R.Intn(1000))
+				g.Op("junk %s %d", Pick(g.R, []string{"conf", "denied", "comm", "trunc", "badtype", "pf3", "pf4"}), g.R.Intn(1000))
 				continue
 			}
 			t := Pick(g.R, ts)
@@ -837,7 +853,7 @@ func genTarget(g *GenCtx) {
 		k := 1 + g.R.Intn(6)
 		for i := 0; i < k; i++ {
 			if g.R.Chance(1, 20) {
-				g.Op("junk %s %d", Pick(g.R, []string{"conf", "denied", "req", "trunc", "badtype"}), g.R.Intn(1000))
+				g.Op("junk %s %d", Pick(g.R, []string{"conf", "denied", "req", "trunc", "badtype", "pf3", "pf4"}), g.R.Intn(1000))
 				continue
 			}
 			t := tgt{randStr(g.R, []int{0, 1, 4, 255}), randStr(g.R, []int{0, 1, 6, 200}), Pick(g.R, []int{0, 22, 65535})}
